@@ -832,6 +832,399 @@ theorem wellStaged_of_check (noisy : List Nat) (hq : ∀ c, c ∉ noisy → ∀ 
     onException := stageOK_of_B hq h5
     onFinal := stageOK_of_B hq h6 }
 
+
+/-! ### the stage barrier: whatever a stage started has finished when the stage returns -/
+
+/-- `l'` extends `l` by a segment with as many `done` as `call` items -/
+def BalL (l l' : List Item) : Prop := ∃ seg, l' = l ++ seg ∧ nCalls seg = nDones seg
+
+def RBal {α : Type} (l : List Item) : R α → Prop
+  | .ok _ s' => BalL l s'.log
+  | .err _ s' => BalL l s'.log
+  | .oof => True
+
+def SubBal (sub : Sub) : Prop := ∀ c s, RBal s.log (sub c s)
+
+theorem nCalls_append (a b : List Item) : nCalls (a ++ b) = nCalls a + nCalls b := by simp [nCalls]
+theorem nDones_append (a b : List Item) : nDones (a ++ b) = nDones a + nDones b := by simp [nDones]
+
+theorem BalL.refl (l : List Item) : BalL l l := ⟨[], by simp, rfl⟩
+theorem BalL.trans {a b c : List Item} (h1 : BalL a b) (h2 : BalL b c) : BalL a c := by
+  obtain ⟨s1, rfl, e1⟩ := h1
+  obtain ⟨s2, rfl, e2⟩ := h2
+  exact ⟨s1 ++ s2, by simp, by rw [nCalls_append, nDones_append, e1, e2]⟩
+
+theorem RBal.bind {α β : Type} {l : List Item} {r : R α} {f : α → St → R β} (h : RBal l r)
+    (hf : ∀ x s1, RBal s1.log (f x s1)) : RBal l (r.bind f) := by
+  cases r with
+  | ok x s1 =>
+    have := hf x s1
+    simp only [Res.bind]
+    cases hr : f x s1 <;> simp only [hr, RBal] at this ⊢ <;> first | exact BalL.trans h this | trivial
+  | err e s1 => exact h
+  | oof => trivial
+
+theorem RBal.map {α β : Type} {l : List Item} {r : R α} (f : α → β) (h : RBal l r) : RBal l (r.map f) := by
+  cases r <;> exact h
+
+theorem runCmds_bal {sub : Sub} (hsub : SubBal sub) : ∀ (cmds : List Cmd) (s : St), RBal s.log (runCmds sub cmds s)
+  | [], s => BalL.refl _
+  | c :: cs, s => RBal.bind (hsub c s) fun _ s1 => runCmds_bal hsub cs s1
+
+def pend (es : List Entry) : Nat := (es.filter fun e => e.pending).length
+
+section bal
+variable {sub : Sub} (hsub : SubBal sub) (kd : Kinds) (x : Ctx)
+include hsub
+
+theorem start_bal {j : Job} {s s' : St} {e : Entry} (h : start sub sc kd x j s = some (e, s')) :
+    ∃ seg, s'.log = s.log ++ seg ∧ nCalls seg = nDones seg + (if e.pending then 1 else 0) := by
+  unfold start at h
+  simp only [] at h
+  have hr := runCmds_bal hsub (sc j.cb (s.count j.cb)).cmds
+    (({ s with counts := aset j.cb (s.count j.cb + 1) s.counts } : St).emit
+      (.call j.slot j.cb x.model x.tag (({ s with counts := aset j.cb (s.count j.cb + 1) s.counts } : St).stateOf x.model)))
+  revert hr h
+  generalize runCmds sub _ _ = r
+  intro h hr
+  have key : ∀ (s3 : St) (seg : List Item), s3.log = (({ s with counts := aset j.cb (s.count j.cb + 1) s.counts } : St).emit
+        (.call j.slot j.cb x.model x.tag (({ s with counts := aset j.cb (s.count j.cb + 1) s.counts } : St).stateOf x.model))).log ++ seg →
+      nCalls seg = nDones seg →
+      (∃ seg', s3.log = s.log ++ seg' ∧ nCalls seg' = nDones seg' + 1) ∧
+      ∀ o, ∃ seg', (s3.emit (.done j.cb o)).log = s.log ++ seg' ∧ nCalls seg' = nDones seg' + 0 := by
+    intro s3 seg hseg hb
+    simp only [St.emit] at hseg
+    generalize hci : Item.call j.slot j.cb x.model x.tag _ = ci at hseg
+    have hc1 : nCalls [ci] = 1 := by subst hci; rfl
+    have hc2 : nDones [ci] = 0 := by subst hci; rfl
+    constructor
+    · refine ⟨[ci] ++ seg, by simp [hseg], ?_⟩
+      rw [nCalls_append, nDones_append, hc1, hc2, hb]; omega
+    · intro o
+      refine ⟨[ci] ++ seg ++ [.done j.cb o], by simp [hseg, St.emit], ?_⟩
+      have hd1 : nCalls [Item.done j.cb o] = 0 := rfl
+      have hd2 : nDones [Item.done j.cb o] = 1 := rfl
+      rw [nCalls_append, nDones_append, nCalls_append, nDones_append, hc1, hc2, hd1, hd2, hb]; omega
+  cases r with
+  | ok u s3 =>
+    obtain ⟨seg, hseg, hb⟩ := hr
+    obtain ⟨k1, k2⟩ := key s3 seg hseg hb
+    simp only [] at h
+    split at h <;> simp only [Option.some.injEq, Prod.mk.injEq] at h <;> obtain ⟨rfl, rfl⟩ := h
+    · simpa using k1
+    · simpa using k2 _
+  | err ex s3 =>
+    obtain ⟨seg, hseg, hb⟩ := hr
+    obtain ⟨_, k2⟩ := key s3 seg hseg hb
+    simp only [Option.some.injEq, Prod.mk.injEq] at h
+    obtain ⟨rfl, rfl⟩ := h
+    simpa using k2 _
+  | oof => simp at h
+
+theorem startAll_bal : ∀ (js : List Job) (s s' : St) (es : List Entry),
+    startAll sub sc kd x js s = some (es, s') →
+    ∃ seg, s'.log = s.log ++ seg ∧ nCalls seg = nDones seg + pend es
+  | [], s, s', es, h => by
+    simp only [startAll, Option.some.injEq, Prod.mk.injEq] at h
+    obtain ⟨rfl, rfl⟩ := h
+    exact ⟨[], by simp, rfl⟩
+  | j :: js, s, s', es, h => by
+    simp only [startAll] at h
+    cases hs : start sub sc kd x j s with
+    | none => simp [hs] at h
+    | some p =>
+      obtain ⟨e, s1⟩ := p
+      simp only [hs] at h
+      cases hr : startAll sub sc kd x js s1 with
+      | none => simp [hr] at h
+      | some q =>
+        obtain ⟨es1, s2⟩ := q
+        simp only [hr, Option.some.injEq, Prod.mk.injEq] at h
+        obtain ⟨rfl, rfl⟩ := h
+        obtain ⟨seg1, h1, b1⟩ := start_bal hsub kd x hs
+        obtain ⟨seg2, h2, b2⟩ := startAll_bal js s1 _ es1 hr
+        refine ⟨seg1 ++ seg2, by simp [h2, h1], ?_⟩
+        rw [nCalls_append, nDones_append, b1, b2]
+        simp only [pend, List.filter_cons]
+        split <;> simp <;> omega
+
+omit hsub in
+theorem finishAll_bal : ∀ (es : List Entry) (s : St),
+    ∃ seg, (finishAll es s).log = s.log ++ seg ∧ nCalls seg = 0 ∧ nDones seg = pend es
+  | [], s => ⟨[], by simp [finishAll], rfl, rfl⟩
+  | e :: es, s => by
+    simp only [finishAll]
+    split
+    · rename_i hp
+      obtain ⟨seg, h1, h2, h3⟩ := finishAll_bal es (s.emit (.done e.cb e.out))
+      refine ⟨[Item.done e.cb e.out] ++ seg, by rw [h1]; simp [St.emit], ?_, ?_⟩
+      · rw [nCalls_append, h2]; rfl
+      · rw [nDones_append, h3]
+        have : nDones [Item.done e.cb e.out] = 1 := rfl
+        simp [pend, hp, this]; omega
+    · rename_i hp
+      obtain ⟨seg, h1, h2, h3⟩ := finishAll_bal es s
+      exact ⟨seg, h1, h2, by simpa [pend, hp] using h3⟩
+
+theorem gather_bal (js : List Job) (s : St) : RBal s.log (gather sub sc kd x js s) := by
+  unfold gather
+  cases hs : startAll sub sc kd x js s with
+  | none => trivial
+  | some p =>
+    obtain ⟨es, s1⟩ := p
+    obtain ⟨seg1, h1, b1⟩ := startAll_bal hsub kd x js s s1 es hs
+    obtain ⟨seg2, h2, c2, d2⟩ := finishAll_bal es s1
+    have : BalL s.log (finishAll es s1).log :=
+      ⟨seg1 ++ seg2, by simp [h2, h1], by rw [nCalls_append, nDones_append, b1, c2, d2]; omega⟩
+    simp only []
+    split <;> exact this
+
+theorem callbacks_bal (slot : Slot) (cs : List Nat) (s : St) : RBal s.log (Async.callbacks sub sc kd slot x cs s) :=
+  RBal.map _ (gather_bal hsub kd x _ s)
+
+theorem evalConds_bal (conds : List Cond) (s : St) : RBal s.log (Async.evalConds sub sc kd x conds s) :=
+  RBal.map _ (gather_bal hsub kd x _ s)
+
+theorem changeState_bal (t : Trans) (dst : Nat) (s : St) : RBal s.log (Async.changeState sub sc kd cfg x t dst s) := by
+  unfold Async.changeState
+  split
+  · exact BalL.refl _
+  · refine RBal.bind (callbacks_bal hsub kd x _ _ s) fun _ s1 => ?_
+    split
+    · exact BalL.refl _
+    · refine RBal.bind (l := s1.log) (callbacks_bal hsub kd x _ _ (s1.setState x.model dst)) fun _ s2 => ?_
+      split
+      · exact callbacks_bal hsub kd x _ _ s2
+      · exact BalL.refl _
+
+theorem execute_bal (t : Trans) (s : St) : RBal s.log (Async.execute sub sc kd cfg x t s) := by
+  unfold Async.execute
+  refine RBal.bind (callbacks_bal hsub kd x _ _ s) fun _ s1 => ?_
+  refine RBal.bind (evalConds_bal hsub kd x _ s1) fun ok s2 => ?_
+  split
+  · exact BalL.refl _
+  refine RBal.bind (callbacks_bal hsub kd x _ _ s2) fun _ s3 => ?_
+  refine RBal.bind (callbacks_bal hsub kd x _ _ s3) fun _ s4 => ?_
+  refine RBal.bind (r := match t.dest with
+      | some d => Async.changeState sub sc kd cfg x t d s4 | none => .ok () s4) ?_ fun _ s5 => ?_
+  · cases t.dest with
+    | none => exact BalL.refl _
+    | some d => exact changeState_bal hsub kd x t d s4
+  refine RBal.bind (callbacks_bal hsub kd x _ _ s5) fun _ s6 => ?_
+  refine RBal.bind (callbacks_bal hsub kd x _ _ s6) fun _ s7 => ?_
+  exact BalL.refl _
+
+theorem tryTransitions_bal : ∀ (ts : List Trans) (s : St), RBal s.log (Async.tryTransitions sub sc kd cfg x ts s)
+  | [], s => BalL.refl _
+  | t :: ts, s => by
+    simp only [Async.tryTransitions]
+    refine RBal.bind (execute_bal hsub kd x t s) fun ok s1 => ?_
+    split
+    · exact BalL.refl _
+    · exact tryTransitions_bal ts s1
+
+omit hsub in
+theorem RBal.of_trans {α : Type} {l l1 : List Item} {r : R α} (h : BalL l l1) (hr : RBal l1 r) : RBal l r := by
+  cases r <;> simp only [RBal] at hr ⊢ <;> first | exact BalL.trans h hr | trivial
+
+theorem except_bal (s0 : List Item) (rb : R Bool) (h : RBal s0 rb) : RBal s0 (Async.exceptClause sub sc kd cfg x rb) := by
+  cases rb with
+  | ok v s1 => exact h
+  | err e s1 =>
+    simp only [Async.exceptClause]
+    split
+    · exact h
+    · exact RBal.of_trans h (RBal.bind (callbacks_bal hsub kd x _ _ s1) fun _ s2 => BalL.refl _)
+  | oof => trivial
+
+theorem finally_bal (s0 : List Item) (rb : R Bool) (h : RBal s0 rb) : RBal s0 (Async.finallyClause sub sc kd cfg x rb) := by
+  cases rb with
+  | ok v s1 =>
+    simp only [Async.finallyClause]
+    apply RBal.of_trans h
+    have := callbacks_bal (sc := sc) hsub kd x .finalize cfg.finalize s1
+    revert this
+    generalize Async.callbacks sub sc kd .finalize x cfg.finalize s1 = rf
+    intro this
+    cases rf <;> first | exact this | trivial
+  | err e s1 =>
+    simp only [Async.finallyClause]
+    apply RBal.of_trans h
+    have := callbacks_bal (sc := sc) hsub kd x .finalize cfg.finalize s1
+    revert this
+    generalize Async.callbacks sub sc kd .finalize x cfg.finalize s1 = rf
+    intro this
+    cases rf <;> first | exact this | trivial
+  | oof => trivial
+
+theorem eventTrigger_bal (ts : List Trans) (s : St) : RBal s.log (Async.eventTrigger sub sc kd cfg ts x s) := by
+  unfold Async.eventTrigger
+  simp only []
+  split
+  · exact BalL.refl _
+  apply finally_bal hsub
+  apply except_bal hsub
+  unfold Async.eventBody
+  split
+  · split <;> exact BalL.refl _
+  · exact RBal.bind (callbacks_bal hsub kd x _ _ s) fun _ s1 => tryTransitions_bal hsub kd x _ s1
+
+theorem drain_bal (m : Nat) : ∀ (n : Nat) (s : St), RBal s.log (Async.drain sub sc kd cfg qm m n s)
+  | 0, _ => trivial
+  | n + 1, s => by
+    simp only [Async.drain]
+    split
+    · exact BalL.refl _
+    · rename_i m' ev tag _ _
+      have := eventTrigger_bal (cfg := cfg) (sc := sc) hsub kd ⟨m', tag⟩ ((cfg.event? ev).getD []) s
+      revert this
+      generalize Async.eventTrigger sub sc kd cfg _ ⟨m', tag⟩ s = r
+      intro this
+      cases r with
+      | ok v s1 =>
+        simp only []
+        have h2 := drain_bal m n { s1 with queue := qPop qm m s1.queue }
+        revert h2
+        generalize Async.drain sub sc kd cfg qm m n _ = r2
+        intro h2
+        cases r2 <;> simp only [RBal] at h2 this ⊢ <;> first | exact BalL.trans this h2 | trivial
+      | err e s1 => exact this
+      | oof => trivial
+
+theorem machineProcess_bal (qmax m ev tag : Nat) (s : St) :
+    RBal s.log (Async.machineProcess sub sc kd cfg qm qmax m ev tag s) := by
+  unfold Async.machineProcess
+  simp only []
+  by_cases h0 : qm = 0
+  · rw [if_pos h0]
+    cases s.queue with
+    | nil => exact eventTrigger_bal hsub kd _ _ s
+    | cons _ _ => exact BalL.refl _
+  · rw [if_neg h0]
+    split
+    · exact BalL.refl _
+    · exact RBal.bind (drain_bal hsub kd m qmax _) fun _ s2 => BalL.refl _
+
+theorem triggerByName_bal (qmax m ev tag : Nat) (s : St) :
+    RBal s.log (Async.triggerByName sub sc kd cfg qm qmax m ev tag s) := by
+  unfold Async.triggerByName
+  split
+  · exact BalL.refl _
+  · cases cfg.event? ev with
+    | some ts => exact machineProcess_bal hsub kd qmax m ev tag s
+    | none =>
+      simp only []
+      cases cfg.state? (s.stateOf m) with
+      | none => exact BalL.refl _
+      | some d => simp only []; split <;> exact BalL.refl _
+
+theorem apiTrigger_bal (qmax m ev : Nat) (s : St) : RBal s.log (Async.apiTrigger sub sc kd cfg qm qmax m ev s) := by
+  unfold Async.apiTrigger
+  simp only []
+  have hextra : ∀ (l l' : List Item) (i i' : Item), nCalls [i] = 0 → nDones [i] = 0 → nCalls [i'] = 0 → nDones [i'] = 0 →
+      BalL (l ++ [i]) l' → BalL l (l' ++ [i']) := by
+    intro l l' i i' a1 a2 a3 a4 ⟨seg, h1, h2⟩
+    refine ⟨[i] ++ seg ++ [i'], by simp [h1], ?_⟩
+    rw [nCalls_append, nDones_append, nCalls_append, nDones_append, a1, a2, a3, a4, h2]
+  have ht := triggerByName_bal (cfg := cfg) (sc := sc) (qm := qm) hsub kd qmax m ev s.nextTag
+    (({ s with nextTag := s.nextTag + 1 } : St).emit (.api 0 s.nextTag m ev))
+  revert ht
+  generalize Async.triggerByName sub sc kd cfg qm qmax m ev s.nextTag _ = r
+  intro ht
+  cases r with
+  | ok v s1 => exact hextra _ _ _ _ rfl rfl rfl rfl ht
+  | err e s1 => exact hextra _ _ _ _ rfl rfl rfl rfl ht
+  | oof => trivial
+
+end bal
+
+theorem runCmd_bal (kd : Kinds) (qmax : Nat) : ∀ f : Nat, SubBal (Async.runCmd sc kd cfg qm qmax f)
+  | 0 => fun _ _ => trivial
+  | f + 1 => by
+    intro c s
+    simp only [Async.runCmd]
+    split
+    · exact RBal.map _ (apiTrigger_bal (runCmd_bal kd qmax f) kd qmax _ _ s)
+    · trivial
+
+theorem runHistory_bal (kd : Kinds) (qmax fuel : Nat) : ∀ (h : List Cmd) (s s' : St),
+    Async.runHistory sc kd cfg qm qmax fuel h s = some s' → BalL s.log s'.log
+  | [], s, s', h => by simp only [Async.runHistory, Option.some.injEq] at h; subst h; exact BalL.refl _
+  | c :: cs, s, s', h => by
+    simp only [Async.runHistory] at h
+    have h1 := runCmd_bal (cfg := cfg) (sc := sc) (qm := qm) kd qmax fuel c s
+    revert h h1
+    generalize Async.runCmd sc kd cfg qm qmax fuel c s = r
+    intro h h1
+    cases r with
+    | ok u s1 => exact BalL.trans h1 (runHistory_bal kd qmax fuel cs s1 s' h)
+    | err e s1 => exact BalL.trans h1 (runHistory_bal kd qmax fuel cs s1 s' h)
+    | oof => simp at h
+
+
+/-! ### callbacks of one stage are started in registration order -/
+
+theorem callsOf_append (a b : List Item) : callsOf (a ++ b) = callsOf a ++ callsOf b := by simp [callsOf]
+
+theorem start_calls {sub : Sub} {kd : Kinds} {x : Ctx} {j : Job} {s s' : St} {e : Entry}
+    (hc : (sc j.cb (s.count j.cb)).cmds = []) (h : start sub sc kd x j s = some (e, s')) :
+    ∃ seg, s'.log = s.log ++ seg ∧ callsOf seg = [(j.slot, j.cb)] := by
+  unfold start at h
+  simp only [hc, runCmds] at h
+  split at h <;> simp only [Option.some.injEq, Prod.mk.injEq] at h <;> obtain ⟨_, rfl⟩ := h
+  · exact ⟨[Item.call j.slot j.cb x.model x.tag _], by simp only [St.emit]; rfl, rfl⟩
+  · exact ⟨[Item.call j.slot j.cb x.model x.tag _, Item.done j.cb _], by simp only [St.emit, List.append_assoc]; rfl, rfl⟩
+
+theorem startAll_calls {sub : Sub} {kd : Kinds} {x : Ctx} : ∀ (js : List Job) (s s' : St) (es : List Entry),
+    (∀ j ∈ js, ∀ k, (sc j.cb k).cmds = []) → startAll sub sc kd x js s = some (es, s') →
+    ∃ seg, s'.log = s.log ++ seg ∧ callsOf seg = js.map fun j => (j.slot, j.cb)
+  | [], s, s', es, _, h => by
+    simp only [startAll, Option.some.injEq, Prod.mk.injEq] at h
+    obtain ⟨_, rfl⟩ := h
+    exact ⟨[], by simp, rfl⟩
+  | j :: js, s, s', es, hq, h => by
+    simp only [startAll] at h
+    cases hs : start sub sc kd x j s with
+    | none => simp [hs] at h
+    | some p =>
+      obtain ⟨e, s1⟩ := p
+      simp only [hs] at h
+      cases hr : startAll sub sc kd x js s1 with
+      | none => simp [hr] at h
+      | some q =>
+        obtain ⟨es1, s2⟩ := q
+        simp only [hr, Option.some.injEq, Prod.mk.injEq] at h
+        obtain ⟨_, rfl⟩ := h
+        obtain ⟨seg1, h1, c1⟩ := start_calls (hq j (List.mem_cons_self ..) _) hs
+        obtain ⟨seg2, h2, c2⟩ := startAll_calls js s1 _ es1 (fun j' hj' => hq j' (List.mem_cons_of_mem _ hj')) hr
+        exact ⟨seg1 ++ seg2, by simp [h2, h1], by rw [callsOf_append, c1, c2]; rfl⟩
+
+theorem finishAll_calls : ∀ (es : List Entry) (s : St), ∃ seg, (finishAll es s).log = s.log ++ seg ∧ callsOf seg = []
+  | [], s => ⟨[], by simp [finishAll], rfl⟩
+  | e :: es, s => by
+    simp only [finishAll]
+    split
+    · obtain ⟨seg, h1, h2⟩ := finishAll_calls es (s.emit (.done e.cb e.out))
+      exact ⟨[Item.done e.cb e.out] ++ seg, by rw [h1]; simp [St.emit], by rw [callsOf_append, h2]; rfl⟩
+    · exact finishAll_calls es s
+
+theorem gather_calls {sub : Sub} {kd : Kinds} {x : Ctx} (js : List Job) (s s' : St)
+    (hq : ∀ j ∈ js, ∀ k, (sc j.cb k).cmds = [])
+    (h : (gather sub sc kd x js s).state? = some s') :
+    ∃ seg, s'.log = s.log ++ seg ∧ callsOf seg = js.map fun j => (j.slot, j.cb) := by
+  unfold gather at h
+  cases hs : startAll sub sc kd x js s with
+  | none => simp [hs, Res.state?] at h
+  | some p =>
+    obtain ⟨es, s1⟩ := p
+    obtain ⟨seg1, h1, c1⟩ := startAll_calls js s s1 es hq hs
+    obtain ⟨seg2, h2, c2⟩ := finishAll_calls es s1
+    have : s' = finishAll es s1 := by
+      simp only [hs] at h
+      split at h <;> simp only [Res.state?, Option.some.injEq] at h <;> exact h.symm
+    subst this
+    exact ⟨seg1 ++ seg2, by simp [h2, h1], by rw [callsOf_append, c1, c2]; simp⟩
+
 end
 end C07
 end TM
